@@ -9,8 +9,9 @@ import (
 )
 
 // Family "locksets" (C13): for the shared fields named in C13's anchor — basicLoader.namedEntries,
-// fileBasedLoader.locks / index, the value of a loaderEntry, dependencyLoader.index — every read / write site in
-// loader/*.go with the set of mutexes SYNTACTICALLY held there:
+// fileBasedLoader.locks / index, the value of a loaderEntry, dependencyLoader.index in loader/*.go, and the runtime's
+// systemLoader / environmentLoader / settings (rt.lock, internal/runtime.go; table `rtLocksets`) — every read / write
+// site with the set of mutexes SYNTACTICALLY held there (Lock and RLock are told apart: "lock:w" / "lock:r"):
 //   X.lock.Lock() / RLock() … Unlock() / RUnlock(), `defer X.lock.Unlock()` (held to the end of the function),
 //   the same for X.locksLock and for the local per-name mutex `nameLock`.
 // An unexported method that is only ever called with a lock held inherits the intersection of the lock sets of its call
@@ -23,7 +24,11 @@ import (
 
 func init() { register("locksets", "Locksets", genLocksets) }
 
-var lsFiles = []string{"loader/loader.go", "loader/dependency.go", "loader/filebased.go"}
+var lsFiles = []string{"loader/loader.go", "loader/dependency.go", "loader/filebased.go", "internal/runtime.go"}
+
+// the rows of internal/runtime.go (the runtime's lazily created system / environment loaders and its settings map, all
+// guarded by rt.lock) go to a table of their own, `rtLocksets`
+const lsRuntimeFile = "internal/runtime.go"
 
 type lsRow struct {
 	file, fn, field string
@@ -71,8 +76,8 @@ func lockOp(call *ast.CallExpr) (mutex, op string, ok bool) {
 			return x.Sel.Name, sel.Sel.Name, true
 		}
 	case *ast.Ident:
-		if x.Name == "nameLock" {
-			return "nameLock", sel.Sel.Name, true
+		if x.Name == "nameLock" || x.Name == "staticLock" {
+			return x.Name, sel.Sel.Name, true
 		}
 	}
 	return "unknown:" + src(sel.X), sel.Sel.Name, true
@@ -132,6 +137,14 @@ func (w *lsWalker) fieldName(sel *ast.SelectorExpr) (string, bool) {
 	switch sel.Sel.Name {
 	case "namedEntries":
 		return "basicLoader.namedEntries", true
+	case "systemLoader", "environmentLoader", "settings":
+		if id, ok := sel.X.(*ast.Ident); ok && id.Name == w.f.rv && w.f.recv == "rt" {
+			return "rt." + sel.Sel.Name, true
+		}
+		if w.f.file == lsRuntimeFile {
+			return "unknown: " + src(sel) + " in " + w.fn, true
+		}
+		return "", false
 	case "locks", "index", "value":
 		if id, ok := sel.X.(*ast.Ident); ok && id.Name == w.f.rv && w.f.recv != "" {
 			// the field of the receiver (or of a struct it embeds)
@@ -334,7 +347,7 @@ func (w *lsWalker) stmt(s ast.Stmt, held map[string]bool) map[string]bool {
 			// a guarded MAP copied into a variable is an alias of the live map: what is done through it later (ranging
 			// over it after the lock is released, say) is invisible to a syntactic lock-set analysis — not accepted
 			if sel, ok := r.(*ast.SelectorExpr); ok {
-				if f, tracked := w.fieldName(sel); tracked && f != "loaderEntry.value" && !strings.HasPrefix(f, "unknown") && w.f.name != "init" {
+				if f, tracked := w.fieldName(sel); tracked && f != "loaderEntry.value" && f != "rt.systemLoader" && f != "rt.environmentLoader" && !strings.HasPrefix(f, "unknown") && w.f.name != "init" {
 					w.unknown("alias of the guarded map "+f+" ("+src(s)+")", r.Pos())
 				}
 			}
@@ -475,8 +488,19 @@ func genLocksets() string {
 				continue
 			}
 			if cur, ok := nb[c.callee]; ok {
-				for k := range cur {
-					if !c.held[k] {
+				for _, k := range setList(cur) {
+					if c.held[k] {
+						continue
+					}
+					// a mutex held exclusively at one call site and shared at another is held SHARED as far as the callee
+					// can rely on it
+					m := strings.TrimSuffix(strings.TrimSuffix(k, ":w"), ":r")
+					switch {
+					case strings.HasSuffix(k, ":r") && c.held[m+":w"]:
+					case strings.HasSuffix(k, ":w") && c.held[m+":r"]:
+						delete(cur, k)
+						cur[m+":r"] = true
+					default:
 						delete(cur, k)
 					}
 				}
@@ -503,20 +527,34 @@ func genLocksets() string {
 	})
 	var b strings.Builder
 	b.WriteString(header("locksets", strings.Join(lsFiles, ", ")))
-	b.WriteString("import Pcore.Model.Lockset\nnamespace Pcore.Generated\nopen Pcore.Lockset\n\ndef locksets : List Access := [\n")
-	for i, r := range a.rows {
-		var hs []string
-		for _, h := range r.held {
-			p := strings.SplitN(h, ":", 2)
-			hs = append(hs, fmt.Sprintf("(%s, .%s)", leanStr(p[0]), p[1]))
+	b.WriteString("import Pcore.Model.Lockset\nnamespace Pcore.Generated\nopen Pcore.Lockset\n")
+	table := func(name string, rows []lsRow) {
+		b.WriteString("\ndef " + name + " : List Access := [\n")
+		for i, r := range rows {
+			var hs []string
+			for _, h := range r.held {
+				p := strings.SplitN(h, ":", 2)
+				hs = append(hs, fmt.Sprintf("(%s, .%s)", leanStr(p[0]), p[1]))
+			}
+			sep := ","
+			if i == len(rows)-1 {
+				sep = ""
+			}
+			fmt.Fprintf(&b, "  { fn := %s, field := %s, write := %v, held := [%s], init := %v }%s  -- %s:%d\n",
+				leanStr(r.fn), leanStr(r.field), r.write, strings.Join(hs, ", "), r.initFn, sep, r.file, r.line)
 		}
-		sep := ","
-		if i == len(a.rows)-1 {
-			sep = ""
-		}
-		fmt.Fprintf(&b, "  { fn := %s, field := %s, write := %v, held := [%s], init := %v }%s  -- %s:%d\n",
-			leanStr(r.fn), leanStr(r.field), r.write, strings.Join(hs, ", "), r.initFn, sep, r.file, r.line)
+		b.WriteString("]\n")
 	}
-	b.WriteString("]\n\nend Pcore.Generated\n")
+	var loaderRows, rtRows []lsRow
+	for _, r := range a.rows {
+		if r.file == lsRuntimeFile {
+			rtRows = append(rtRows, r)
+		} else {
+			loaderRows = append(loaderRows, r)
+		}
+	}
+	table("locksets", loaderRows)
+	table("rtLocksets", rtRows)
+	b.WriteString("\nend Pcore.Generated\n")
 	return b.String()
 }
